@@ -224,6 +224,9 @@ def caller_ok(ctx: "Ctx", f: FuncInfo, allowed: Callable[[FuncInfo], bool], _see
     who-may-call / who-may-write verdict."""
     if allowed(f):
         return True
+    if f.outer is not None:
+        # code of a nested function (closure, local generator) belongs to the function that defines it
+        return caller_ok(ctx, f.outer, allowed, _seen)
     seen = set(_seen or ())
     if f.qualname in seen or not is_helper(f):
         return False
